@@ -91,6 +91,7 @@ PROPS["C18"] = {"units": [
     plain_unit("regress", "bridge", "^TestRegressC18"),
     rapid_unit("bridge", "bridge", "^TestC18Bridge$", 1500, 16 * 15000),
     rapid_unit("dpipe", "bridge", "^TestC18Dpipe$", 5000, 16 * 100000),
+    rapid_unit("dpipe-full", "bridge", "^TestC18DpipeFull$", 300, 16 * 3000, shrinktime="2s"),
 ]}
 
 PROPS["C16"] = {"units": [
